@@ -48,6 +48,8 @@ class World(object):
         self.damaged_pos = set()      # stripe positions the harness damaged (data) and nobody repaired yet
         self.damaged_par = set()      # (level, pos)
         self.events = []              # what happened, for evidence samples / replay reports
+        self.last_file = None         # (disk, rel) of the file touched by the latest file-system step
+        self._forced = None
         self.nsteps = 0
         self.trash = []               # (disk, rel, bytes, mtime_ns) of files the harness deleted: material for "restore from backup"
 
@@ -96,6 +98,8 @@ class World(object):
         return sorted(out)
 
     def pick(self, disk, fi):
+        if self._forced is not None:
+            return self._forced
         fl = self.list_files(disk)
         if not fl:
             return None
@@ -141,10 +145,30 @@ class World(object):
     def fs_step(self, s):
         """apply one file-system step; steps that cannot apply to the current tree (path through a
         symlink or a file, name too long, ...) are skipped and return None"""
+        self._forced = None
+        if s.get("recent") and self.last_file is not None and "fi" in s:
+            # act on the file the previous steps created / changed / copied / moved (chains of operations on one file)
+            ld, lrel = self.last_file
+            try:
+                if os.path.isfile(self.full(ld, lrel)) and not os.path.islink(self.full(ld, lrel)):
+                    s = dict(s, disk=ld)
+                    self._forced = lrel
+            except OSError:
+                pass
         try:
-            return self._fs_step(s)
+            ev = self._fs_step(s)
         except OSError:
-            return None
+            ev = None
+        self._forced = None
+        if ev:
+            k = ev[0]
+            if k in ("create", "append", "truncate", "rewrite", "rewrite_same_second", "touch", "undelete"):
+                self.last_file = (ev[1], ev[2])
+            elif k in ("rename", "move", "copy"):
+                self.last_file = (ev[3], ev[4])
+            elif k in ("delete", "file_to_dir", "file_to_link"):
+                self.last_file = None
+        return ev
 
     def _fs_step(self, s):
         op = s["op"]
@@ -193,7 +217,7 @@ class World(object):
                 new = bytes([old[0] ^ 0x55]) + old[1:]
             self.write_file(d, rel, new, mtime_ns=mt)
             ev = ("rewrite", d, rel, len(old)) if not s.get("same_sec") else ("rewrite_same_second", d, rel, len(old))
-        elif op == "touch":     # time-stamp only
+        elif op in ("touch", "touch_file"):     # time-stamp only
             rel = self.pick(d, s["fi"])
             if rel is None:
                 return None
